@@ -21,6 +21,15 @@ OBLIGATIONS = [
              "(written with +00:00, +05:30 or -08:00 offsets), evaluated at that instant + d microseconds (symbolic d): permitted iff signature valid and d < 0 "
              "(the moment of expiry itself is refused)",
         outside="only ISO strings as written by datetime.isoformat() of an aware datetime; naive expiry strings raise TypeError in the comparison"),
+    chx("announced_certs", "C33_h", "h_announced_certs",
+        cases={"quick": [{"kinds": [0, 1, 2], "_label": "signature"}, {"kinds": [0, 3, 4, 5], "_label": "shape"}],
+               "thorough": [{"_label": "all"}]},
+        timeout={"quick": 120, "thorough": 900},
+        desc="real StorageFarmBroker._make_storage_server with one grid-manager key configured and two announced certificate entries, each well-formed "
+             "(symbolic signature-valid / subject / expiry) or malformed (no signature, non-base32 signature, no certificate, not a dict, non-string "
+             "signature) -> SignedCertificate.load -> create_grid_manager_verifier -> NativeStorageServer.upload_permitted: permitted iff a well-formed "
+             "entry is valid for this server and unexpired; a malformed entry may make the announcement fail but never grants permission",
+        outside="Tub creation; HTTP storage servers (same verifier hand-over); twisted plugin discovery"),
     chx("validate_cert", "C33_h", "h_validate_cert", timeout={"quick": 30, "thorough": 30},
         desc="validate_grid_manager_certificate: None (and nothing parsed) iff the signature does not verify under the given key; else the parsed body"),
 ]
